@@ -21,13 +21,16 @@ func extractionWindows(tier string) []Win {
 		{at(1, 0, 10, 7, 300000500), at(1, 21, 5, 21, 700000300)},
 		{at(1, 4, 40, 11, 100000700), at(2, 1, 15, 38, 400000900)},
 		{at(1, 21, 30, 3, 900000100), at(2, 0, 20, 49, 200000300)},
+		// both ends inside one second whose start is aligned to 15 s and to every bucket: a bound that lost its fraction
+		// falls back below the whole window
+		{at(1, 12, 0, 0, 250000512), at(1, 12, 0, 0, 750000768)},
 	}
 	if tier == "thorough" {
 		ws = append(ws,
 			Win{at(0, 23, 50, 1, 1), at(1, 20, 10, 59, 999999999)},      // crosses midnight from the last minutes of a day
 			Win{at(1, 23, 59, 59, 999999000), at(2, 0, 0, 0, 1000)},     // 2 microseconds around the month boundary
 			Win{at(2, 0, 0, 0, 0), at(2, 0, 29, 59, 0)},                 // starts exactly at midnight, shorter than the 30 min margin
-			Win{at(1, 12, 0, 0, 250000000), at(1, 12, 0, 0, 750000000)}, // sub-second
+			Win{at(1, 12, 0, 15, 1000000), at(1, 12, 7, 30, 999000000)}, // one millisecond after / before aligned seconds
 			Win{at(0, 5, 0, 0, 0), at(0, 19, 0, 0, 0)},                  // aligned to everything
 		)
 	}
@@ -58,6 +61,8 @@ type ScanOut struct {
 	UpIncl   bool      `json:"up_incl"`
 	NoWindow bool      `json:"no_window"`
 	Lookback int64     `json:"lookback_ns"`
+	Offset   int64     `json:"offset_ns"`
+	Unit     int64     `json:"unit_ns"`
 	Instant  bool      `json:"instant"`
 	TsLo     *BoundOut `json:"ts_lo"`
 	TsHi     *BoundOut `json:"ts_hi"`
@@ -186,7 +191,7 @@ func runExtract(out, tier string, clusters []string, only string) {
 					for ci, c := range st.Classes {
 						info := tablesInfo[c.Table]
 						so := ScanOut{ScanKey: ScanKey{ep.Name, cl, si, ci}, Table: c.Table, Kind: info.Kind, WRule: info.WRule, API: ep.API, Signal: ep.Signal,
-							Metric: ep.Metric, UpIncl: ep.UpIncl, NoWindow: ep.NoWindow, Lookback: int64(ep.Lookback), Instant: ep.Instant, HasType: c.HasTy, Type: c.Type, Extra: c.Extra, Unknown: c.Unk,
+							Metric: ep.Metric, UpIncl: ep.UpIncl, NoWindow: ep.NoWindow, Lookback: int64(ep.Lookback), Offset: int64(ep.Offset), Unit: int64(ep.Unit), Instant: ep.Instant, HasType: c.HasTy, Type: c.Type, Extra: c.Extra, Unknown: c.Unk,
 							Phase: st.Scans[ci].Phase, IsJoin: c.IsJoin, SQL: st.SQL, Windows: 1}
 						mergeBound(&so.TsLo, c.TsLo, true, "", &so)
 						mergeBound(&so.TsHi, c.TsHi, true, "", &so)
